@@ -8,7 +8,7 @@
 (*   Mode "fields": the script grows by one request per step          (C03)     *)
 (*   Mode "skip"  : one more value is replaced by an offending value  (C05)     *)
 (*   Mode "typed" : value x encoding x target; damage = cut / corrupt (C07)     *)
-EXTENDS LoadScript, MsgPackCorpus, JsonFormat, JsonCorpus, Json
+EXTENDS LoadScript, MsgPackCorpus, JsonCorpus, XmlCorpus, Json
 
 CONSTANTS Arch,            \* "msgpack" | "json": which archive's documents are generated
           Mode, MaxOps, Widths, Pads,
@@ -26,9 +26,9 @@ vars == <<doc, w, root, pol, aux>>
 S(x) == <<"str", x>>
 Ka == <<97>>  Kb == <<98>>  Kc == <<99>>  Kz == <<122>>
 
-ThrowPol == [mm |-> "throw", ov |-> "throw", arch |-> Arch]
-SkipPol  == [mm |-> "skip", ov |-> "skip", arch |-> Arch]
-MixPol   == [mm |-> "skip", ov |-> "throw", arch |-> Arch]
+ThrowPol == [mm |-> "throw", ov |-> "throw", arch |-> Arch, dev |-> ""]
+SkipPol  == [mm |-> "skip", ov |-> "skip", arch |-> Arch, dev |-> ""]
+MixPol   == [mm |-> "skip", ov |-> "throw", arch |-> Arch, dev |-> ""]
 
 \* JSON: the "width" index selects a standard rendering (whitespace, escapes, member order) and an encoding
 JStyleSeq == << [ws |-> 0, esc |-> 0, order |-> 0, enc |-> "utf8", bom |-> FALSE],
@@ -40,17 +40,28 @@ JStyleSeq == << [ws |-> 0, esc |-> 0, order |-> 0, enc |-> "utf8", bom |-> FALSE
                 [ws |-> 0, esc |-> 2, order |-> 1, enc |-> "utf32be", bom |-> TRUE],
                 [ws |-> 0, esc |-> 0, order |-> 0, enc |-> "utf16le", bom |-> FALSE],
                 [ws |-> 0, esc |-> 0, order |-> 0, enc |-> "utf32be", bom |-> FALSE] >>
+XStyleSeq == << [indent |-> 0, ref |-> 0, quote |-> 34, empty |-> 0, decl |-> 1, enc |-> "utf8", bom |-> FALSE, order |-> 0],
+                [indent |-> 2, ref |-> 1, quote |-> 39, empty |-> 1, decl |-> 2, enc |-> "utf8", bom |-> TRUE, order |-> 1],
+                [indent |-> -1, ref |-> 0, quote |-> 34, empty |-> 0, decl |-> 0, enc |-> "utf8", bom |-> FALSE, order |-> 0],
+                [indent |-> 2, ref |-> 0, quote |-> 34, empty |-> 0, decl |-> 1, enc |-> "utf16le", bom |-> TRUE, order |-> 0],
+                [indent |-> 0, ref |-> 1, quote |-> 39, empty |-> 1, decl |-> 2, enc |-> "utf16be", bom |-> TRUE, order |-> 1],
+                [indent |-> 0, ref |-> 0, quote |-> 34, empty |-> 0, decl |-> 2, enc |-> "utf32le", bom |-> TRUE, order |-> 0],
+                [indent |-> -1, ref |-> 1, quote |-> 34, empty |-> 1, decl |-> 1, enc |-> "utf32be", bom |-> TRUE, order |-> 0] >>
 \* the document as it is actually laid out (member order) under width/style index wi
-DocFor(d, wi) == IF Arch = "msgpack" \/ JStyleSeq[wi + 1].order = 0 THEN d ELSE ReverseMaps(d)
+DocFor(d, wi) == IF Arch = "msgpack" THEN d
+                 ELSE IF (IF Arch = "xml" THEN XStyleSeq[wi + 1].order ELSE JStyleSeq[wi + 1].order) = 0 THEN d ELSE ReverseMaps(d)
 EncodeDoc(d, wi) ==
   IF Arch = "msgpack" THEN Enc(d, wi)
+  ELSE IF Arch = "xml" THEN LET st == XStyleSeq[wi + 1] IN EncodeText(XRender(XmlDoc(DocFor(d, wi)), st, st.enc), st.enc, st.bom)
   ELSE LET st == JStyleSeq[wi + 1] IN EncodeText(Render(DocFor(d, wi), [st EXCEPT !.order = 0], 0), st.enc, st.bom)
-DocMeta(wi) == IF Arch = "msgpack" THEN [enc |-> "bin", bom |-> FALSE] ELSE [enc |-> JStyleSeq[wi + 1].enc, bom |-> JStyleSeq[wi + 1].bom]
+DocMeta(wi) == IF Arch = "msgpack" THEN [enc |-> "bin", bom |-> FALSE]
+               ELSE IF Arch = "xml" THEN [enc |-> XStyleSeq[wi + 1].enc, bom |-> XStyleSeq[wi + 1].bom]
+               ELSE [enc |-> JStyleSeq[wi + 1].enc, bom |-> JStyleSeq[wi + 1].bom]
 
 \* Encoding detection without a BOM is only defined (RFC 4627 section 3 heuristic, which stream parsers implement) when the text
 \* starts with ASCII characters: two of them for UTF-16, one for UTF-32.  Other BOM-less UTF-16/32 texts are not generated.
 Detectable(d, wi) ==
-  \/ Arch = "msgpack"
+  \/ Arch \in {"msgpack", "xml"}
   \/ LET st == JStyleSeq[wi + 1]
           t == Render(DocFor(d, wi), [st EXCEPT !.order = 0], 0) IN
      \/ st.bom \/ st.enc = "utf8"
@@ -154,7 +165,7 @@ NextSkip == /\ Cardinality(aux.done) < MaxOps
 
 -----------------------------------------------------------------------------
 (* Mode "typed" (C07): every corpus value in every legal width into every target, whole and truncated *)
-Targets == {"bool", "i8", "u8", "i16", "u16", "i32", "u32", "i64", "u64", "f32", "f64", "str", "null", "vec_i32", "objscope"}
+Targets == {"bool", "i8", "u8", "i16", "u16", "i32", "u32", "i64", "u64", "f32", "f64", "str", "vec_i32", "objscope"} \cup (IF Arch = "xml" THEN {} ELSE {"null"})
            \cup (IF Arch = "msgpack" THEN {"tp_ns", "vec_u8"} ELSE {})
 
 \* pseudo target "objscope": the value is opened as a nested object (one member requested), then a sibling is requested
@@ -162,7 +173,7 @@ TypedRoots(T) == IF T = "objscope" THEN
                    { [k |-> "obj", ops |-> <<[op |-> "obj", ks |-> Ka, ops |-> <<[op |-> "req", ks |-> Ka, t |-> "i32"]>>], [op |-> "req", ks |-> Kb, t |-> "i32"]>>],
                      [k |-> "arr", ops |-> <<[op |-> "obj", ops |-> <<[op |-> "req", ks |-> Ka, t |-> "i32"]>>], [op |-> "elem", t |-> "i32"]>>] }
                  ELSE
-                 { [k |-> "leaf", t |-> T],
+                 (IF Arch = "xml" THEN {} ELSE { [k |-> "leaf", t |-> T] }) \cup {
                    [k |-> "arr", ops |-> <<[op |-> "elem", t |-> T], [op |-> "elem", t |-> "i32"]>>],
                    [k |-> "obj", ops |-> <<[op |-> "req", ks |-> Ka, t |-> T], [op |-> "req", ks |-> Kb, t |-> "i32"]>>] }
                  \cup (IF Arch = "msgpack" /\ T \in {"i32", "str", "u8"}      \* integer keys requested through unsigned / signed key types
@@ -171,7 +182,7 @@ Wrap(v, r) == IF r.k = "leaf" THEN v ELSE IF r.k = "arr" THEN <<"arr", <<v, U(7)
               ELSE IF "ik" \in DOMAIN r THEN <<"map", <<<<U(1), v>>, <<U(2), U(7)>>>>>>
               ELSE <<"map", <<<<S(Ka), v>>, <<S(Kb), U(7)>>>>>>
 
-TypedCorpus == (IF Arch = "msgpack" THEN ScalarCorpus ELSE JScalars) \cup { <<"arr", <<U(1), U(200), U(-3)>>>>, <<"arr", <<>>>>, <<"arr", <<U(1), S(<<122>>)>>>>, <<"map", <<<<S(Ka), U(1)>>>>>> }
+TypedCorpus == (IF Arch = "msgpack" THEN ScalarCorpus ELSE IF Arch = "xml" THEN XScalars \cup {<<"nil">>} ELSE JScalars) \cup { <<"arr", <<U(1), U(200), U(-3)>>>>, <<"arr", <<>>>>, <<"arr", <<U(1), S(<<122>>)>>>>, <<"map", <<<<S(Ka), U(1)>>>>>> }
 
 InitTyped == /\ \E v \in TypedCorpus, T \in (IF TypedTargets = {} THEN Targets ELSE TypedTargets) : \E r \in TypedRoots(T) : doc = Wrap(v, r) /\ root = r
              /\ w \in Widths
@@ -243,6 +254,9 @@ DevExpected ==
        IF r.ok /\ n.ok /\ r.v # n.v
        THEN <<[dev |-> "Dev_Timestamp96FieldOrder", exp |-> IF Exotic(r.v) THEN [ev |-> <<>>, exc |-> <<"unspecified">>] ELSE Exec(r.v, root, pol)]>>
        ELSE <<>>
+  ELSE IF Arch = "xml" THEN
+       LET e == Exec(DocFor(doc, w), root, [pol EXCEPT !.dev = "negtext"]) IN
+       IF e = Exec(DocFor(doc, w), root, pol) THEN <<>> ELSE <<[dev |-> "Dev_NegativeTextToUnsignedIsMismatch", exp |-> e]>>
   ELSE IF Arch # "msgpack" THEN <<>>
   ELSE LET d == DevTs96View(doc, w) IN
        IF d = doc THEN <<>>
